@@ -53,9 +53,10 @@ type Decision struct {
 
 // Blocked describes a thread that had not finished at quiescence.
 type Blocked struct {
-	ID   int
-	Name string
-	Desc string
+	ID     int
+	Name   string
+	Desc   string
+	Daemon bool
 }
 
 // Timer is something that can fire at quiescence (a deadline).
@@ -172,7 +173,7 @@ func Run(prefix []int, maxSteps int, logOn bool, setup func(x *Exec), body func(
 	}
 	for _, t := range x.threads {
 		if t.state != stDone {
-			x.Blocked = append(x.Blocked, Blocked{t.ID, t.Name, t.Desc})
+			x.Blocked = append(x.Blocked, Blocked{t.ID, t.Name, t.Desc, t.Daemon})
 		}
 	}
 	return x
